@@ -402,3 +402,6 @@ def run(ctx):
     rule_module_order(ctx)
     rule_name_rule(ctx)
     rule_no_dev_open(ctx)
+    # a module whose build id cannot be read is dropped from the list: the scan over PT_NOTE segments must not give up early
+    from rules import c14
+    c14.rule_scan_all_notes(ctx, R="C08/scan-all-notes")
